@@ -153,8 +153,9 @@ def _generate(prop, rng, tier, force_fault_free=False):
         elif r < 0.95:
             rows, cols = rng.randint(1, 5), rng.randint(1, 12)
             mat = [[1 if rng.random() < 0.35 else 0 for _c in range(cols)] for _r in range(rows)]
-            ops.append({'op': 'tseries', 'mat': mat, 'start': rng.choice([0.0, -2.0, 1.5, 100.0]),
-                        'bin': rng.choice([1.0, 0.5, 0.25, 2.0, 0.125]), 'sep': rng.choice([None, None, ',']),
+            ops.append({'op': 'tseries', 'mat': mat, 'start': rng.choice([0.0, -2.0, 1.5, 100.0, 0.1, 0.3]),
+                        'bin': rng.choice([1.0, 0.5, 0.25, 2.0, 0.125, 0.1, 0.001, 0.3, 0.7, round(rng.random(), 3) + 0.001]),
+                        'sep': rng.choice([None, None, ',']),
                         'comment': rng.random() < 0.3, 'as_float': rng.random() < 0.3})
         else:
             ops.append({'op': 'ctor', 's': gen.gen_spikes(rng, wp), 'edge': rng.choice([4.0, 10.0, 250.0, 1.5]),
@@ -391,8 +392,14 @@ def _exec(spk, rec, op, fs, plan, acked, hand, e):
         start, b = op['start'], op['bin']
         ncol = len(mat[0])
         want = [[start + (k + 1) * b for k, v in enumerate(row) if v] for row in mat]
+        from ..core import close as _close
+
+        def _same(xs, ys):
+            # dyadic start/bin: exact; otherwise start + (k+1)*bin and start + bin + k*bin differ by rounding
+            return len(xs) == len(ys) and all(_close(float(x), float(y), 1e-12) for x, y in zip(xs, ys))
         ok = err is None and isinstance(res, (list, tuple)) and len(res) == len(want) and all(
-            [float(t) for t in st.spikes] == w and float(st.t_start) == start and float(st.t_end) == start + ncol * b
+            _same(list(st.spikes), w) and float(st.t_start) == start and
+            _close(float(st.t_end), start + ncol * b, 1e-12)
             for st, w in zip(res, want))
         if not ok:
             rec.violate('C19.time_series', {'op': op, 'got': norm(res) if err is None else norm(err),
